@@ -39,7 +39,13 @@ ENTRIES = {
                 "several concrete encodings of each answer: TxResponse codes 32/3, gRPC status with the mismatch message) "
                 "are recorded and validated by TLC against the property-layer and the algorithmic trace specifications.",
         "design_ref": "7 C43",
-        "note": "A violation is raised only by the property-layer trace spec. The statement is silent about the roll-back "
+        "note": "Pipelined family (spec/TxPipeline.tla): the client composed with an honest node (committed sequence, mempool, "
+                "blocks that reject the k-th transaction for a non-sequence reason and the later ones for their sequence); TLC "
+                "checks for 3 submissions in flight that whenever nothing is in flight the cached sequence is the one the node "
+                "expects; recorded pipelined rounds against the honest fake node are validated by Trace_TxHonest (clause E). "
+                "The family's discipline: no new transaction while a rejection is outstanding, no block while a transaction is "
+                "being prepared (the code as it is races there). "
+                "A violation is raised only by the property-layer trace specs. The statement is silent about the roll-back "
                 "after a `rejected` status: the property layer accepts a client that rolls back to the rejected tx's "
                 "sequence and one that does not (the algorithmic layer pins the code's behaviour; a difference there is "
                 "drift). The node is adversarial (any answer at any time), not a model of celestia-app; account query and "
@@ -108,6 +114,28 @@ def _validate(ck, trace, direction, est, rerun=None, subs=SUBS6):
     ck.validate_trace_runs("Trace_TxClient", alg_cfg, trace, on_drift, max_rejects=5)
 
 
+def _validate_honest(ck, trace, rerun):
+    """Clause E on runs recorded against the honest node (Trace_TxHonest)."""
+    cfg = ck.cfg_with("Trace_TxHonest.cfg", {"Subs": SUBS6})
+    n = [0]
+
+    def on_reject(rej, run_lines, idx):
+        p = f"{ck.work}/bad_honest_{n[0]}.ndjson"
+        open(p, "w").write("\n".join(run_lines) + "\n")
+        tag = f"clause_honest_{n[0]}"
+        n[0] += 1
+        ck.tlc_trace("Trace_TxHonest", cfg, p, tag=tag)
+        clause = _clause(ck, tag)
+        ev = rej["event"] if isinstance(rej.get("event"), dict) else {}
+        ck.violation({"direction": "impl->spec/honest", "clause": clause, "mode": "honest",
+                      "answer": f"{ev.get('name')}:{ev.get('ans')}"},
+                     f"honest node: event {idx} of run not allowed ({clause}): signed {ev.get('q')}, node expects "
+                     f"{ev.get('nx')}: {json.dumps(ev)[:200]}",
+                     {"trace": run_lines, "reject": rej, "clause": clause, "rerun": rerun, "est": False})
+
+    ck.validate_trace_runs("Trace_TxHonest", cfg, trace, on_reject, max_rejects=5)
+
+
 def _gen_and_replay(ck, hb, i, consts, est, simulate=None):
     cfg = ck.cfg_with("Gen_TxClient.cfg", consts, name=f"Gen_TxClient_{i}.cfg")
     cases, _ = ck.tlc_gen("Gen_TxClient", cfg, f"cases_{i}.ndjson", tag=f"gen_{i}", count_stats=False,
@@ -146,6 +174,11 @@ def run(ck):
         if est == "TRUE":
             req.append("Est")
         ck.tlc_mc("MC_TxClient", cfg, tag=f"mc_{i}", required_actions=req, timeout=1500 if ck.quick else 5000)
+    # pipelined submissions against the honest node (clause E: when nothing is in flight the next signature carries the
+    # sequence the node expects)
+    pcfg = ck.cfg_with("MC_TxPipeline.cfg", {"Subs": "{1, 2, 3}", "Fuel": 2 if ck.quick else 3})
+    ck.tlc_mc("MC_TxPipeline", pcfg, tag="mc_pipeline", required_actions=["HBegin", "HBcast", "Block", "HStatus"],
+              timeout=1500)
     # 2. spec -> impl
     base = {"Subs": "{1, 2}", "MaxSeq": 2, "Fuel": 1, "UseEst": "FALSE", "Q0": 1, "MaxConc": 2}
     if ck.quick:
@@ -171,6 +204,18 @@ def run(ck):
                     raise vf.ToolError(f"harness: gated run got stuck: {line[:200]}")
             _validate(ck, trace, f"impl->spec/{mode}", bool(est),
                       rerun={"kind": "record", "mode": mode, "seed": ck.seed, "runs": runs, "est": est})
+    # honest node, pipelined rounds: property layer incl. clause E, algorithmic layer
+    hruns = 60 if ck.quick else 600
+    trace = f"{ck.work}/trace_honest.ndjson"
+    s = ck.harness(hb, ["record", "txclient", "--seed", ck.seed, "--out", trace, "--runs", hruns, "--subs", 6,
+                        "--mode", "honest", "--est", 0], "record_honest")
+    ck.absorb(s)
+    for line in open(trace):
+        if '"name":"stuck"' in line:
+            raise vf.ToolError(f"harness: honest run got stuck: {line[:200]}")
+    rr = {"kind": "record", "mode": "honest", "seed": ck.seed, "runs": hruns, "est": 0}
+    _validate(ck, trace, "impl->spec/honest", False, rerun=rr)
+    _validate_honest(ck, trace, rr)
     ck.cov["exhaustive"] = True
     ck.cov["rule"] = ("spec->impl: one case = one complete schedule generated by TLC (exhaustive for 2 submissions, simulated "
                       "for 3 / with estimation in the quick tier); non-trivial = distinct schedule containing a mismatch, "
@@ -202,6 +247,8 @@ def replay(ck):
                                 "--mode", rr["mode"], "--est", rr["est"]], f"rerecord_{k}")
             ck.absorb(s)
             _validate(ck, trace, d["class"].get("direction", "replay"), bool(rr["est"]), rerun=rr)
+            if rr["mode"] == "honest":
+                _validate_honest(ck, trace, rr)
         else:
             head = json.loads(c["trace"][0])
             cases = f"{ck.work}/replay_case_{k}.ndjson"
